@@ -14,6 +14,13 @@ Configs == <<
   [prefix |-> <<"p">>,           suffix |-> <<"s">>,      stops |-> << <<"b">> >>,            alpha |-> {"p","s","b","x"}],
   [prefix |-> <<>>,              suffix |-> <<"s">>,      stops |-> << <<"s","b">> >>,        alpha |-> {"s","b","x"}],
   [prefix |-> <<"_","_","q">>,   suffix |-> <<"q">>,      stops |-> <<>>,                     alpha |-> {"_","q","x"}],
-  [prefix |-> <<"_","q">>,       suffix |-> <<"q">>,      stops |-> << <<"n","u">> >>,        alpha |-> {"_","q","n","u"}]
+  [prefix |-> <<"_","q">>,       suffix |-> <<"q">>,      stops |-> << <<"n","u">> >>,        alpha |-> {"_","q","n","u"}],
+  (* patterns whose first character occurs again inside them (like "\n\nHuman:") *)
+  [prefix |-> <<>>,              suffix |-> <<>>,         stops |-> << <<"a","a","b">> >>,    alpha |-> {"a","b","x"}],
+  [prefix |-> <<>>,              suffix |-> <<"s","s","t">>, stops |-> <<>>,                  alpha |-> {"s","t","x"}],
+  [prefix |-> <<>>,              suffix |-> <<"s">>,      stops |-> << <<"a","b","a","c">> >>, alpha |-> {"a","b","c","s"}],
+  (* a stop sequence that ends with the suffix, with and without a prefix *)
+  [prefix |-> <<>>,              suffix |-> <<"q">>,      stops |-> << <<"u","q">> >>,        alpha |-> {"q","u","x"}],
+  [prefix |-> <<"a","q">>,       suffix |-> <<"q">>,      stops |-> << <<"u","q">> >>,        alpha |-> {"a","q","u"}]
 >>
 =============================================================================
